@@ -350,7 +350,14 @@ func (m *MsgClaim) ValidateBasic() (err error) {
 	if !ok {
 		return sdkerrors.ErrInvalidRequest.Wrapf("expected claim type %T, got %T", new(ExternalClaim), m.Claim.GetCachedValue())
 	}
-	return claim.ValidateBasic()
+	if err = claim.ValidateBasic(); err != nil {
+		return err
+	}
+	// the transaction is signed by the wrapper's bridger, the vote is counted for the claim's bridger
+	if m.BridgerAddress != claim.GetClaimer().String() {
+		return sdkerrors.ErrInvalidAddress.Wrap("bridger address does not match the claim")
+	}
+	return nil
 }
 
 func (m *MsgClaim) GetSigners() []sdk.AccAddress {
